@@ -118,6 +118,13 @@ CORPUS = [
     {"max": 2, "min": 1, "qsize": 0, "gates": 0,
      "clients": [[("enq", ("ret",)), ("enq", ("ret",)), ("enq", ("ret",)), ("start",), ("join", False), ("stop",), ("enq", ("ret",)), ("start",), ("join", False), ("stop",)],
                  [("enq", ("raise",)), ("join", True)]]},
+    # stop() while a task may still be running, then a restart without permanent workers: the task enqueued
+    # after the restart must still find (or get) a worker -- the counters must survive the stop/clear cycle
+    {"max": 1, "min": 0, "qsize": 0, "gates": 0,
+     "clients": [[("start",), ("enq", ("ret",)), ("stop",), ("start",), ("enq", ("ret",)), ("await", 1, True), ("stop",)]]},
+    {"max": 2, "min": 0, "qsize": 0, "gates": 0,
+     "clients": [[("start",), ("enq", ("ret",)), ("enq", ("raise",)), ("stop",), ("start",), ("enq", ("ret",)), ("await", 2, True),
+                  ("join", True), ("stop",)]]},
 ]
 
 
@@ -264,6 +271,7 @@ class Obs(object):
         self.steps = run.steps
         self.skips = run.skips
         self.align_error = run.align_error
+        self.aborted = getattr(run, "aborted", False)
         self.ntasks = len(run.tasks)
         self.task_kinds = [t["kind"] for t in run.tasks]
         self.begins = [t["begins"] for t in run.tasks]
@@ -300,6 +308,7 @@ def run_program(case, repo=None, snapshots=True):
         res = run.run()
     except AlignmentError as ex:           # raised outside a controlled thread
         run.align_error = str(ex)
+        run.aborted = True
         res = run.result if hasattr(run, "result") else None
         if res is None:
             raise
@@ -361,7 +370,7 @@ def oracle_c09(case, o):
             last = [k for (k, c, r) in iv if r is not None and r <= i]
             if started and not stop_overlap and last and last[-1] == "start" and o.task_kinds[tid][0] in ("ret", "raise"):
                 return ("C09:accepted-task-never-ran", "result() of task %d timed out at a quiescent moment while the pool was running" % tid)
-    if o.status != DONE and not o.align_error:
+    if o.status != DONE and not o.aborted:
         waiting_gate = any("gate" in lab for (_, lab) in o.blocked)
         if not waiting_gate and not any(n == "c0" and ("Thread.join" in lab or "Queue.join" in lab) for (n, lab) in o.blocked):
             return ("C09:run-did-not-finish", "status %s, blocked %s" % (o.status, o.blocked[:4]))
@@ -426,7 +435,7 @@ def oracle_c10(case, o):
             for i in range(ret, end + 1):
                 if i <= n and serving[i] < mn:
                     return ("C10:fewer-serving-workers-than-min", "%d workers serve the queue at step %d (start() returned at %d, next stop() at %s), min_threads=%d" % (serving[i], i, ret, nxt[:1], mx and mn))
-    if o.status != DONE and not o.align_error:
+    if o.status != DONE and not o.aborted:
         if any("gate" in lab for (_, lab) in o.blocked):
             return ("C10:dependent-tasks-stalled", "status %s: a task waits on a gate whose opener is accepted but not started; blocked %s" % (o.status, o.blocked[:5]))
     return None
@@ -457,7 +466,7 @@ def oracle_c11(case, o):
                 return ("C11:untimed-join-false", "join() without timeout returned False")
     # stop() always returns
     for (k, c, r) in lifecycle_intervals(o.events):
-        if k == "stop" and r is None and not o.align_error:
+        if k == "stop" and r is None and not o.aborted:
             gate = any("gate" in lab for (_, lab) in o.blocked)
             if not gate:
                 return ("C11:stop-does-not-return", "stop() called at step %d never returned: status %s, blocked %s" % (c, o.status, o.blocked[:5]))
@@ -485,7 +494,7 @@ def oracle_c11(case, o):
             if labs != ["Event.is_set:stop"]:
                 return ("C11:redundant-%s-not-a-noop" % k, "redundant %s() performed %s" % (k, labs[:6]))
         state = "running" if k == "start" else "stopped"
-    if o.status != DONE and not o.align_error and not any("gate" in lab for (_, lab) in o.blocked):
+    if o.status != DONE and not o.aborted and not any("gate" in lab for (_, lab) in o.blocked):
         return ("C11:run-did-not-finish", "status %s, blocked %s" % (o.status, o.blocked[:4]))
     return None
 
